@@ -1,7 +1,9 @@
 (* The SM2 recommended curve, typed from GM/T 0003.5-2012 (never from the Go code), the affine
-   group operations instantiated on it, and the record of mathematical facts about these
-   parameters that nothing installed here can prove (primality, associativity, order of G).
-   SM2Facts is used as an explicit premise of the theorems that need it.
+   group operations instantiated on it, and the record SM2Facts of mathematical facts about these
+   parameters (primality, associativity, order of G).  SM2Facts is an explicit premise of the theorems
+   that need it, never assumed globally; it is PROVED in coq/Prime/SM2FactsProof.v (SM2Facts_proved:
+   Pocklington certificates for p and n, associativity from coq/SM2/ECAssoc*.v), and coq/Props/SM2Premises.v
+   restates the theorems without the premise.
 
    STABLE INTERFACE: sm2_p sm2_a sm2_b sm2_n sm2_Gx sm2_Gy sm2_curve sm2_G
                      sm2_on_curve sm2_valid sm2_neg sm2_double sm2_add sm2_mul sm2_base_mul SM2Facts *)
